@@ -1,4 +1,9 @@
-STREAMS = ["c20"]
+import os
+import core
+
+STREAMS = ["c20", "c20gw"]
+NEEDS_BINARY = True
+HARNESS_ARGS = ("-rdpgw", os.path.join(core.BUILD, "rdpgw"))
 RULE = ("the real KerberosProxy.Handler (krb5.conf with generated KDC lists) against fake KDCs listening on TCP and UDP: 9 KDC "
         "sets (reply+close, reply+hold, UDP reply, partial reply, close, silence, refusal, silent+replying, three KDCs of which "
         "one replies) x Kerberos payloads of 0, 1, 5, 1 KiB, 60 000 and 128 KiB - 64 bytes, messages shorter than their length "
